@@ -282,6 +282,16 @@ class ISISGrammar(PVLGrammar):
     object_pref_keywords = ("Object", "End_Object")
     object_keywords = {"OBJECT": "END_OBJECT"}
 
+    # The tables that the parent class derives from the two above were
+    # built from the parent's versions (with the BEGIN_ keywords), so
+    # they must be derived again:
+    aggregation_keywords = dict()
+    aggregation_keywords.update(group_keywords)
+    aggregation_keywords.update(object_keywords)
+    reserved_keywords = set(PVLGrammar.end_statements)
+    for p in aggregation_keywords.items():
+        reserved_keywords |= set(p)
+
     # A single-line comment that starts with the octothorpe (#) is not part
     # of PVL or ODL, but it is used when ISIS writes out comments.
     comments = (("/*", "*/"), ("#", "\n"))
